@@ -425,6 +425,8 @@ def process(run: Run, cases: list[Case], rng, corr: list, stats: dict) -> None:
                   "origin": c.origin})
         run.count("origin:" + c.origin.split(":")[0] + ":" + c.origin.split(":")[1].split("-")[0])
         run.count("depth:" + str(G.depth_of(c.program)))
+        if G.shadowing_quantifiers(c.program):
+            run.count("programs_with_shadowing_quantifier(bound symbol = symbol the range selects)")
         for k in kinds:
             run.count("node:" + k)
         run.count("verdict:constant" if len(set(map(str, vs))) == 1 else "verdict:varies")
